@@ -638,6 +638,11 @@ class AssociationSocket:
         sock = cast(socket.socket, self.socket)
         try:
             sock.shutdown(socket.SHUT_RDWR)
+        except Exception:
+            # e.g. the peer has already gone: still close the socket
+            pass
+
+        try:
             sock.close()
         except Exception:
             pass
